@@ -26,12 +26,18 @@ def repo_root() -> str:
 
 
 def load_known_findings() -> List[dict]:
-    p = os.path.join(VERIF, "known_findings.json")
-    if not os.path.exists(p):
-        return []
-    with open(p) as f:
-        data = json.load(f)
-    return [e for e in data.get("findings", []) if e.get("status", "open") == "open"]
+    out = []
+    paths = [os.path.join(VERIF, "known_findings.json")]
+    frag = os.path.join(VERIF, "known_findings.d")
+    if os.path.isdir(frag):
+        paths += [os.path.join(frag, n) for n in sorted(os.listdir(frag)) if n.endswith(".json")]
+    for p in paths:
+        if not os.path.exists(p):
+            continue
+        with open(p) as f:
+            data = json.load(f)
+        out += [e for e in data.get("findings", []) if e.get("status", "open") == "open"]
+    return out
 
 
 @dataclass
